@@ -183,7 +183,7 @@ func (c *Ctx) writeCompleteRule(rule string, writeFn *ssa.Function) {
 			if !isRet || len(rt.Results) != 1 {
 				return
 			}
-			if !instrDominates(step, rt) && isNilConst(retVal(rt, 0)) {
+			if !instrDominates(step, rt) && isNilConst(retVal(rt, 0)) && reachableAvoiding(fn, step)[rt] {
 				ok, why = false, "success return at "+c.InstrPos(rt)+" is not preceded by "+c.InstrPos(step)
 			}
 		})
@@ -1648,4 +1648,97 @@ func (c *Ctx) internalsStayInsideRule(rule string, funcs []*ssa.Function, lock s
 		})
 	}
 	r.Add(rule, "internal-boxed-examined", "-", "", "places where an internal record is boxed into an interface", true, fmt.Sprintf("%d", n))
+}
+
+// reachableAvoiding: the instructions reachable from fn's entry without
+// executing step, along edges that are not plainly infeasible: when a block
+// only merges an error variable (phi) and branches on it being nil, an edge
+// into it on which the incoming value is known to be non-nil (the edge is the
+// "err != nil" side of the test of that very value) continues on the non-nil
+// side only. This is the shape of `err := a(); if err == nil { err = b() }; if
+// err != nil { return err }`.
+func reachableAvoiding(fn *ssa.Function, step ssa.Instruction) map[ssa.Instruction]bool {
+	seen := map[ssa.Instruction]bool{}
+	if len(fn.Blocks) == 0 {
+		return seen
+	}
+	done := map[*ssa.BasicBlock]bool{}
+	// mergeTest: b consists of phis and an If on (phi ==/!= nil); returns the phi, and the successor taken when it is non-nil
+	mergeTest := func(b *ssa.BasicBlock) (*ssa.Phi, *ssa.BasicBlock) {
+		if len(b.Instrs) == 0 || len(b.Succs) != 2 {
+			return nil, nil
+		}
+		iff, ok := b.Instrs[len(b.Instrs)-1].(*ssa.If)
+		if !ok {
+			return nil, nil
+		}
+		for _, in := range b.Instrs[:len(b.Instrs)-1] {
+			switch in.(type) {
+			case *ssa.Phi, *ssa.BinOp, *ssa.DebugRef:
+			default:
+				return nil, nil
+			}
+		}
+		bo, ok := iff.Cond.(*ssa.BinOp)
+		if !ok || (bo.Op != token.EQL && bo.Op != token.NEQ) {
+			return nil, nil
+		}
+		var ph *ssa.Phi
+		if p, isP := bo.X.(*ssa.Phi); isP && isNilConst(bo.Y) {
+			ph = p
+		} else if p, isP := bo.Y.(*ssa.Phi); isP && isNilConst(bo.X) {
+			ph = p
+		}
+		if ph == nil || ph.Block() != b {
+			return nil, nil
+		}
+		if bo.Op == token.NEQ {
+			return ph, b.Succs[0]
+		}
+		return ph, b.Succs[1]
+	}
+	var visit func(b *ssa.BasicBlock)
+	visit = func(b *ssa.BasicBlock) {
+		if done[b] {
+			return
+		}
+		done[b] = true
+		for _, in := range b.Instrs {
+			if in == step {
+				return
+			}
+			seen[in] = true
+		}
+		for _, s := range b.Succs {
+			if ph, nonNil := mergeTest(s); ph != nil {
+				// which value does this edge bring, and is it known non-nil on this edge?
+				idx := -1
+				for i, p := range s.Preds {
+					if p == b {
+						idx = i
+					}
+				}
+				if idx >= 0 && idx < len(ph.Edges) {
+					if cd, ok := edgeCond(b, s); ok {
+						cd = unwrapNot(cd)
+						if bo, isB := cd.V.(*ssa.BinOp); isB && (bo.Op == token.EQL || bo.Op == token.NEQ) {
+							var other ssa.Value
+							if isNilConst(bo.Y) {
+								other = bo.X
+							} else if isNilConst(bo.X) {
+								other = bo.Y
+							}
+							if other != nil && other == ph.Edges[idx] && (bo.Op == token.NEQ) == cd.True {
+								visit(nonNil)
+								continue
+							}
+						}
+					}
+				}
+			}
+			visit(s)
+		}
+	}
+	visit(fn.Blocks[0])
+	return seen
 }
